@@ -8,7 +8,8 @@ for d in seeded/$pat/; do
   sid=$(basename $d)
   out=$(tools/check_seed.sh $sid $tier 2>&1); rc=$?
   if [ $rc -eq 1 ]; then
-    if echo "$out" | grep -q "no-failing-input-found"; then echo "$sid CAUGHT no-failing-input-found"; else echo "$sid CAUGHT failing-input"; fi
+    how=$(echo "$out" | grep "^HOW " | cut -c5-)
+    if echo "$out" | grep "^VIOLATION" | grep -qv "no-failing-input-found"; then echo "$sid CAUGHT failing-input :: $how"; else echo "$sid CAUGHT no-failing-input-found :: $how"; fi
   elif [ $rc -eq 0 ]; then echo "$sid MISSED"
   else echo "$sid ERROR $(echo "$out" | tail -1)"; fi
 done
